@@ -25,12 +25,36 @@ from src.core.base import BaseLintContext, BaseLintRule
 from src.core.constants import Language
 from src.core.types import Violation
 
+from .config import LazyIgnoresConfig
 from .header_parser import SuppressionsParser
 from .matcher import IgnoreSuppressionMatcher
 from .python_analyzer import PythonIgnoreDetector
 from .skip_detector import TestSkipDetector
-from .types import IgnoreDirective
+from .types import IgnoreDirective, IgnoreType
 from .violation_builder import build_orphaned_violation, build_unjustified_violation
+
+
+_SWITCH_BY_TYPE = {
+    IgnoreType.NOQA: "check_noqa",
+    IgnoreType.TYPE_IGNORE: "check_type_ignore",
+    IgnoreType.PYLINT_DISABLE: "check_pylint_disable",
+    IgnoreType.NOSEC: "check_nosec",
+    IgnoreType.PYRIGHT_IGNORE: "check_pyright_ignore",
+    IgnoreType.TS_IGNORE: "check_ts_ignore",
+    IgnoreType.TS_NOCHECK: "check_ts_ignore",
+    IgnoreType.TS_EXPECT_ERROR: "check_ts_ignore",
+    IgnoreType.ESLINT_DISABLE: "check_eslint_disable",
+    IgnoreType.THAILINT_IGNORE: "check_thailint_ignore",
+    IgnoreType.THAILINT_IGNORE_FILE: "check_thailint_ignore",
+    IgnoreType.THAILINT_IGNORE_NEXT: "check_thailint_ignore",
+    IgnoreType.THAILINT_IGNORE_BLOCK: "check_thailint_ignore",
+}
+
+
+def _is_checked(ignore_type: IgnoreType, config: LazyIgnoresConfig) -> bool:
+    """Check whether the documented switch for this kind of suppression is on."""
+    switch = _SWITCH_BY_TYPE.get(ignore_type)
+    return True if switch is None else bool(getattr(config, switch))
 
 
 class LazyIgnoresRule(BaseLintRule):
@@ -86,7 +110,18 @@ class LazyIgnoresRule(BaseLintRule):
             return []
 
         file_path = str(context.file_path) if context.file_path else "unknown"
-        return self.check_content(context.file_content, file_path)
+        return self.check_content(context.file_content, file_path, self._load_config(context))
+
+    def _load_config(self, context: BaseLintContext) -> LazyIgnoresConfig:
+        """Read the check_* switches of the lazy-ignores config section (default: all on)."""
+        metadata = getattr(context, "metadata", None)
+        if not isinstance(metadata, dict):
+            return LazyIgnoresConfig()
+        for key in ("lazy_ignores", "lazy-ignores"):
+            section = metadata.get(key)
+            if isinstance(section, dict):
+                return LazyIgnoresConfig.from_dict(section)
+        return LazyIgnoresConfig()
 
     def _is_enabled(self, context: BaseLintContext) -> bool:
         """Check the enabled flag of the lazy-ignores config section (default: enabled)."""
@@ -99,12 +134,15 @@ class LazyIgnoresRule(BaseLintRule):
                 return bool(section.get("enabled", True))
         return True
 
-    def check_content(self, code: str, file_path: str) -> list[Violation]:
+    def check_content(
+        self, code: str, file_path: str, config: LazyIgnoresConfig | None = None
+    ) -> list[Violation]:
         """Check code for unjustified ignores and orphaned suppressions.
 
         Args:
             code: Source code content to analyze.
             file_path: Path to the file being analyzed.
+            config: Pattern detection switches (default: everything checked).
 
         Returns:
             List of violations for unjustified and orphaned suppressions.
@@ -116,8 +154,10 @@ class LazyIgnoresRule(BaseLintRule):
         # Find all ignore directives in code
         ignores = self._python_detector.find_ignores(code, Path(file_path))
 
+        config = config or LazyIgnoresConfig()
+
         # Find test skip directives if enabled
-        if self._check_test_skips:
+        if self._check_test_skips and config.check_test_skips:
             test_skips = self._test_skip_detector.find_skips(code, Path(file_path), "python")
             ignores = list(ignores) + list(test_skips)
 
@@ -126,8 +166,10 @@ class LazyIgnoresRule(BaseLintRule):
 
         # Find violations
         violations: list[Violation] = []
-        violations.extend(self._find_unjustified(ignores, suppressions, file_path))
-        violations.extend(self._find_orphaned(suppressions, used_rule_ids, file_path))
+        checked = [ignore for ignore in ignores if _is_checked(ignore.ignore_type, config)]
+        violations.extend(self._find_unjustified(checked, suppressions, file_path))
+        if config.check_orphaned:
+            violations.extend(self._find_orphaned(suppressions, used_rule_ids, file_path))
 
         return violations
 
